@@ -21,10 +21,22 @@ Definition column := list bytes.
 Record batch := { b_rows : N; b_meta : meta; b_cols : list column }.
 
 (* how a stream ends: the EOS marker; end of data without a marker (arrow-go
-   treats it as a clean end); a partial message (a read error) *)
-Inductive term := TEos | TEof | TBroken.
+   treats it as a clean end); data that ends inside a length prefix (arrow-go
+   reports a read error after the intact batches; nothing oversized is
+   declared, so the framing guard lets it through); a message that declares
+   more bytes than remain (refused by the framing guard, ipc_guard.go) *)
+Inductive term := TEos | TEof | TCut | TBroken.
 Inductive seg := Stream (sc : schema) (bs : list batch) (t : term) | Junk.
 Definition body := list seg.
+
+(* vgirpc/ipc_guard.go checkIPCStreamFraming on the stream a segment starts:
+   the allocation-free walk over the declared lengths. Every byte-slice entry
+   point applies it before arrow-go sees the bytes; the reader-based
+   ReadRequest cannot (the total size is unknown to it). *)
+Definition seg_ok (g : seg) : bool :=
+  match g with Junk => false | Stream _ _ TBroken => false | Stream _ _ _ => true end.
+Definition guard_first (bd : body) : bool :=
+  match bd with [] => true | g :: _ => seg_ok g end.
 
 (* the name ReadUnaryResult looks up (a literal in the Go source) *)
 Definition f_result : bytes := Eval compute in str "result".
@@ -148,6 +160,7 @@ Definition read_request (bd : body) : rres :=
   | [] => Rej RsIpc
   | Junk :: _ => Rej RsIpc
   | Stream _ [] TBroken :: _ => Rej RsIpc
+  | Stream _ [] TCut :: _ => Rej RsIpc
   | Stream _ [] _ :: _ => Rej RsEof
   | Stream sc (b :: _) _ :: _ => validate sc b
   end.
@@ -183,14 +196,16 @@ Fixpoint scan_batches (bs : list batch) (call : option bytes) : option bytes * o
       end
   end.
 
-(* the outer loop. It stops: with the cursor in hand; when a stream could not
-   be opened or read to its end; when the data is used up. (The Go loop's
-   `r.Len() == before` guard cannot fire: opening a stream on a non-empty
-   reader either consumes bytes or fails.) *)
+(* the outer loop. It stops: when the framing guard refuses the stream about
+   to be opened (nothing of that stream is looked at); with the cursor in hand;
+   when a stream could not be opened or read to its end; when the data is used
+   up. (The Go loop's `r.Len() == before` guard cannot fire: opening a stream
+   on a non-empty reader either consumes bytes or fails.) *)
 Fixpoint find_loop (bd : body) (call : option bytes) : option bytes * option bytes :=
   match bd with
   | [] => (None, call)
   | Junk :: _ => (None, call)
+  | Stream _ _ TBroken :: _ => (None, call)
   | Stream _ bs t :: rest =>
       let '(st, c) := scan_batches bs None in
       let call' := or_first call c in
@@ -211,6 +226,13 @@ Fixpoint fpv_batches (bs : list batch) : bytes :=
   | b :: t => match pv_of b with Some v => v | None => fpv_batches t end
   end.
 Definition find_protocol_version (bd : body) : bytes :=
+  match bd with
+  | Stream _ _ TBroken :: _ => []          (* refused by the framing guard *)
+  | Stream _ bs _ :: _ => fpv_batches bs
+  | _ => []
+  end.
+(* before the guard (kept for the refutation witness) *)
+Definition find_protocol_version_legacy (bd : body) : bytes :=
   match bd with Stream _ bs _ :: _ => fpv_batches bs | _ => [] end.
 
 (* ---- ReadUnaryResult / WriteUnaryResult ---------------------------------- *)
@@ -247,7 +269,11 @@ Fixpoint rur_batches (sc : schema) (bs : list batch) : option (schema * bytes) :
       else None
   end.
 Definition read_unary_result (bd : body) : option (schema * bytes) :=
-  match bd with Stream sc bs _ :: _ => rur_batches sc bs | _ => None end.
+  match bd with
+  | Stream _ _ TBroken :: _ => None        (* refused by the framing guard *)
+  | Stream sc bs _ :: _ => rur_batches sc bs
+  | _ => None
+  end.
 
 Definition envelope_ok (sc : schema) : bool :=
   match sc with [(_, TBinary)] => true | _ => false end.
@@ -306,14 +332,21 @@ Record bobs := {
   o_call : option bytes;                (* FindCallStateToken *)
   o_pv : bytes;                         (* FindProtocolVersion *)
   o_ur : option (schema * bytes);       (* ReadUnaryResult *)
+  o_guard : bool;                       (* checkIPCStreamFraming accepts the first stream *)
+  o_guard_all : bool;                   (* checkIPCFraming accepts every stream *)
   o_panics : N }.
-(* for malformed bytes only the number of readers that panicked or killed the
-   process is observed *)
-Inductive obs := OB (r : bobs) | OM (crashes : N).
+(* for malformed bytes the model predicts nothing; observed are: crashes
+   (recovered panics + process deaths) of the reader-based ReadRequest; crashes
+   of the byte-slice functions; MiB allocated by the byte-slice functions; and
+   whether a body the framing guard refuses yielded nothing from them *)
+Inductive obs := OB (r : bobs) | OM (rr_crashes slice_crashes slice_alloc_mib : N) (refusal_respected : bool).
+(* what the byte-slice functions together may allocate on a body of at most a
+   few KiB (they are guarded: no declared length can exceed the body) *)
+Definition slice_alloc_cap_mib : N := 8.
 
 Definition model (i : input) : obs :=
   match i with
-  | IMalformed => OM 0
+  | IMalformed => OM 0 0 0 true
   | IBody ss =>
       let bd := wire ss in
       OB {| o_body := bd; o_werr := map writer_failed (cut ss);
@@ -321,7 +354,8 @@ Definition model (i : input) : obs :=
             o_tok := find_stream_tokens bd;
             o_state := find_state_token bd; o_call := find_call_state_token bd;
             o_pv := find_protocol_version bd;
-            o_ur := read_unary_result bd; o_panics := 0 |}
+            o_ur := read_unary_result bd;
+            o_guard := guard_first bd; o_guard_all := forallb seg_ok bd; o_panics := 0 |}
   end.
 
 (* ---- decidable equality on observables ------------------------------------ *)
@@ -337,7 +371,7 @@ Definition cols_eqb : list column -> list column -> bool := list_eqb (list_eqb b
 Definition batch_eqb (a b : batch) : bool :=
   (b_rows a =? b_rows b) && meta_eqb (b_meta a) (b_meta b) && cols_eqb (b_cols a) (b_cols b).
 Definition term_eqb (a b : term) : bool :=
-  match a, b with TEos, TEos | TEof, TEof | TBroken, TBroken => true | _, _ => false end.
+  match a, b with TEos, TEos | TEof, TEof | TCut, TCut | TBroken, TBroken => true | _, _ => false end.
 Definition seg_eqb (a b : seg) : bool :=
   match a, b with
   | Junk, Junk => true
@@ -371,11 +405,13 @@ Definition bobs_eqb (a b : bobs) : bool :=
   body_eqb (o_body a) (o_body b) && list_eqb Bool.eqb (o_werr a) (o_werr b)
   && rview_eqb (o_rr a) (o_rr b) && tok_eqb (o_tok a) (o_tok b)
   && ob_eqb (o_state a) (o_state b) && ob_eqb (o_call a) (o_call b)
-  && beqb (o_pv a) (o_pv b) && ur_eqb (o_ur a) (o_ur b) && (o_panics a =? o_panics b).
+  && beqb (o_pv a) (o_pv b) && ur_eqb (o_ur a) (o_ur b)
+  && Bool.eqb (o_guard a) (o_guard b) && Bool.eqb (o_guard_all a) (o_guard_all b)
+  && (o_panics a =? o_panics b).
 Definition obs_eqb (a b : obs) : bool :=
   match a, b with
   | OB x, OB y => bobs_eqb x y
-  | OM _, OM _ => true   (* the model makes no prediction about malformed bytes; spec_ok judges them *)
+  | OM _ _ _ _, OM _ _ _ _ => true   (* the model makes no prediction about malformed bytes; spec_ok judges them *)
   | _, _ => false
   end.
 
@@ -385,11 +421,14 @@ Definition obs_eqb (a b : obs) : bool :=
 Fixpoint first_some {A B} (f : A -> option B) (l : list A) : option B :=
   match l with [] => None | x :: t => or_first (f x) (first_some f t) end.
 
-(* the batches a walk over concatenated streams can reach *)
+(* the batches a walk over concatenated streams can reach: nothing of a
+   stream whose framing is refused, nothing after a stream that does not end
+   in EOS *)
 Fixpoint reach (bd : body) : list batch :=
   match bd with
   | [] => []
   | Junk :: _ => []
+  | Stream _ _ TBroken :: _ => []
   | Stream _ bs TEos :: rest => bs ++ reach rest
   | Stream _ bs _ :: _ => bs
   end.
@@ -402,8 +441,13 @@ Fixpoint upto_cursor (l : list batch) : list batch :=
 Definition spec_tokens (bd : body) : option bytes * option bytes :=
   (first_some cursor_of (reach bd), first_some call_of (upto_cursor (reach bd))).
 
+(* the first stream, when the byte-slice functions get to read it *)
 Definition first_stream (bd : body) : option (schema * list batch) :=
-  match bd with Stream sc bs _ :: _ => Some (sc, bs) | _ => None end.
+  match bd with
+  | Stream _ _ TBroken :: _ => None
+  | Stream sc bs _ :: _ => Some (sc, bs)
+  | _ => None
+  end.
 
 Definition spec_pv (bd : body) : bytes :=
   match first_stream bd with Some (_, bs) => dflt (first_some pv_of bs) | None => [] end.
@@ -436,7 +480,7 @@ Definition spec_request (bd : body) (v : rview) : bool :=
       | VRej EVersion => meth_ok && negb ver_ok
       | VRej _ => false
       end
-  | Stream _ [] TBroken :: _ => match v with VRej EIpc => true | _ => false end
+  | Stream _ [] TBroken :: _ | Stream _ [] TCut :: _ => match v with VRej EIpc => true | _ => false end
   | Stream _ [] _ :: _ => match v with VRej EEof => true | _ => false end
   | _ => match v with VRej EIpc => true | _ => false end
   end.
@@ -473,7 +517,8 @@ Definition spec_res_roundtrip (ss : list sspec) (r : bobs) : bool :=
 
 Definition spec_ok (i : input) (o : obs) : bool :=
   match i, o with
-  | IMalformed, OM crashes => crashes =? 0
+  | IMalformed, OM rr_crashes slice_crashes alloc refusal =>
+      (rr_crashes =? 0) && (slice_crashes =? 0) && (alloc <=? slice_alloc_cap_mib) && refusal
   | IBody ss, OB r =>
       let bd := wire ss in
       (o_panics r =? 0)
@@ -483,6 +528,9 @@ Definition spec_ok (i : input) (o : obs) : bool :=
       && ob_eqb (o_state r) (fst (spec_tokens bd)) && ob_eqb (o_call r) (snd (spec_tokens bd))
       && beqb (o_pv r) (spec_pv bd)
       && ur_eqb (o_ur r) (spec_ur bd)
+      (* malformed framing is refused: the guard's verdict, and nothing comes out *)
+      && Bool.eqb (o_guard r) (guard_first bd) && Bool.eqb (o_guard_all r) (forallb seg_ok bd)
+      && (o_guard r || (tok_eqb (o_tok r) (None, None) && beqb (o_pv r) [] && ur_eqb (o_ur r) None))
       && spec_req_roundtrip ss r
       && spec_res_roundtrip ss r
   | _, _ => false
